@@ -114,6 +114,32 @@ def mutations(rnd, tok, meta, n):
     t = json.loads(json.dumps(tok))
     t["tag"] = ""
     out.append((t, "empty-tag"))
+    # length changes: canonical prefixes of the tag (whole octets dropped from the end: 1, 2, 4 and down to 12, 8 octets),
+    # an octet appended; the same for the iv, the wrapped key and a key-wrap tag/iv carried in the header
+    def shorter(v, drop):
+        b = G.unb64(v)
+        return G.b64(b[:len(b) - drop]) if len(b) > drop else None
+
+    def length_variants(v):
+        b = G.unb64(v)
+        res = [("cut%d" % d, shorter(v, d)) for d in (1, 2, 4)]
+        res += [("to%d" % k, G.b64(b[:k])) for k in (12, 8) if len(b) > k]
+        res.append(("plus1", G.b64(b + b"\x00")))
+        return [(n_, x) for n_, x in res if x is not None and x != v]
+    for m in ("tag", "iv", "encrypted_key"):
+        if isinstance(tok.get(m), str) and tok[m]:
+            for n_, x in rnd.sample(length_variants(tok[m]), 2) if n < 10 else length_variants(tok[m]):
+                t = json.loads(json.dumps(tok))
+                t[m] = x
+                out.append((t, "len-%s-%s" % (m, n_)))
+    for hn in ("header", "unprotected"):
+        h0 = tok.get(hn) or {}
+        for m in ("tag", "iv"):
+            if isinstance(h0.get(m), str) and h0[m]:
+                for n_, x in length_variants(h0[m]):
+                    t = json.loads(json.dumps(tok))
+                    t[hn][m] = x
+                    out.append((t, "len-hdr-%s-%s" % (m, n_)))
     if tok.get("aad"):
         t = json.loads(json.dumps(tok))
         t.pop("aad")
